@@ -50,7 +50,8 @@ pub fn c09(rep: &mut Report, cfg: &Cfg) {
     let mut rng = cfg.rng(check);
     let mut cpu = Cpu::new();
     let mut mem = Mem::new();
-    let replay_sweep = |what: &str, a: u32| format!("check=C09 kind=bus what={} addr={:x}", what, a);
+    let (rs_seed, rs_shard) = (cfg.seed, cfg.shard);
+    let replay_sweep = move |what: &str, a: u32| format!("check=C09 kind=bus what={} addr={:x} seed={} shard={}", what, a, rs_seed, rs_shard);
 
     // ---- 1. exhaustive classification + tagged write / read-back sweeps over all 2^24 addresses
     let passes = if cfg.tier_thorough { 8 } else { 2 };
